@@ -26,6 +26,7 @@ var litPres = []string{"0", "alpha", "alpha.1", "beta", "rc.1", "1", "a", "rc", 
 // partial draws a (possibly partial, possibly wildcarded) version literal.
 //
 //	wild: allow x / X / * components; pre: allow a prerelease on a full version.
+//
 // anchors are full versions that operands are drawn from a third of the time,
 // so that bounds of different comparators, alternatives and constraints
 // coincide exactly (closed vs open ends at the same version, touching spans).
